@@ -29,6 +29,20 @@ claim("C14", "sched",
       "virtual event loop (callbacks take zero time), consumer completion is a harness-owned future; bounds: <=5 elements, <=3 deviations",
       "DESIGN.md §3 C14")
 
+claim("C13", "sched",
+      "bounded exhaustive schedule enumeration (ICB) of rate_limit / delay on a virtual clock, 0.5 arrival grid",
+      "Every schedule of 1-2 producers (awaiting or bursting), clock ticks on a half-interval grid, loop iterations and consumer completions within the deviation bound is run "
+      "against the real nodes; spacing >= interval, arrival order, no loss/duplicate and idle=>immediate are evaluated on virtual delivery times after every step.",
+      "virtual clock (time()/IOLoop.time() rebound; callbacks take zero time); interval 1.0; <=4 elements; deviations <=1 (<=2 on the smallest scenario in thorough)",
+      "DESIGN.md §3 C13")
+
+claim("C08", "sched",
+      "bounded exhaustive schedule enumeration (ICB) of timed_window / timed_window_unique / partition(timeout) on a virtual clock",
+      "Every schedule of bursting arrivals on a half-interval grid, timer expirations and consumer completions within the deviation bound is run against the real nodes; "
+      "window contents are reconstructed from the observation log (no model of the timer needed): conservation, order, size, keep-first/last, deadline incl. blocked time, no spurious batch.",
+      "virtual clock; interval/timeout 1.0; <=4 elements; n in {1,2,3}; deviations <=1 quick, <=2 thorough (sync consumer)",
+      "DESIGN.md §3 C08")
+
 ALL = ["C%02d" % i for i in range(1, 21)]
 
 
